@@ -75,6 +75,38 @@ def run_shared_delay_model(sc, workdir):
     return _run(_build(sc, workdir, dm=dm), workdir)
 
 
+class _SlowClock:
+    """stands in for the `time` module inside topsim's modules: every reading of the wall clock is 3 s later than the last"""
+
+    def __init__(self, real):
+        self._real = real
+        self._now = real.time()
+
+    def time(self):
+        self._now += 3.0
+        return self._now
+
+    def __getattr__(self, name):
+        return getattr(self._real, name)
+
+
+def run_with_slow_wall_clock(sc, workdir):
+    """the same run on a 'host' whose wall clock jumps 3 s between any two readings: apart from the *-algtime columns nothing
+    may change (outputs depend on the configuration, not on how fast the machine is)"""
+    import sys
+    import time as real_time
+    patched = []
+    for name, mod in list(sys.modules.items()):
+        if name.startswith('topsim.') and getattr(mod, 'time', None) is real_time:
+            mod.time = _SlowClock(real_time)
+            patched.append(mod)
+    try:
+        return run_once(sc, workdir)
+    finally:
+        for mod in patched:
+            mod.time = real_time
+
+
 def run_interleaved(sc, other, workdir):
     """the scenario's simulation is built, then another simulation is built AND run in the same interpreter, and only then
     the first one runs: its outputs must not depend on that"""
@@ -99,6 +131,8 @@ def main():
             res = {'first': a, 'second': b, 'hashseed': os.environ.get('PYTHONHASHSEED')}
             if msg.get('interleave') and 'machines' not in msg:
                 res['third'] = run_interleaved(sc, msg['interleave'], workdir)
+            if msg.get('slow_clock') and 'machines' not in msg:
+                res['fifth'] = run_with_slow_wall_clock(sc, workdir)
             if msg.get('shared_dm') and 'machines' not in msg and sc.get('delay_model'):
                 res['fourth'] = run_shared_delay_model(sc, workdir)
         except Exception as e:       # harness problem
